@@ -444,6 +444,10 @@ def run(tier):
     spec_path = write_spec(pls, tier)
     lines = [c['line'] for c in cases]
     try:
+        rc, wout, werr = lib.impl_python(IMPL, [lib.REPO, spec_path, '--warm'], extra_env={'VRT_REPO': lib.REPO})
+        if rc != 0:
+            raise RuntimeError('warm-up failed: ' + werr[-2000:])
+        stage['schema_warmup_s'] = round(time.time() - t0 - stage['proof_and_extraction_s'], 1)
         outs = run_impl(spec_path, lines)
     except RuntimeError as e:
         rep.violation('the implementation driver failed: ' + str(e)[-1500:],
